@@ -893,7 +893,7 @@ def check_c16(run):
 # --------------------------------------------------------------------------------------------
 COMPOSED = ["canon:remove_userinfo", "canon:remove_port", "canon:remove_fragment", "canon:sort_keys", "canon:sort_param", "canon:default_scheme", "canon:repeated_decode",
             "canon:remove_userinfo+remove_port+remove_fragment+sort_keys+default_scheme+repeated_decode", "canon:remove_fragment+sort_param+repeated_decode"]
-ALL_STRING_PROFILES = ["WhatWg", "WhatWgSortQuery"] + COMPOSED
+ALL_STRING_PROFILES = ["WhatWg", "WhatWgSortQuery"] + COMPOSED + ["GoogleSafeBrowsing", "Semantic"]   # the last two: output predicted, fixed point only on the grammar
 UNRESERVED = "abcxyzABZ0179-._~"
 
 
@@ -923,6 +923,12 @@ def check_c17(run):
     fams = [f for f in c01_families(run) if f.name in keep]
     L = filler_letter(run.seed)
     fams.append(Family("idemquery", ("&=%25'" + L) if q else ("&=+%25a1'" + L), 4 if q else 5, prefixes=["http://h/?", "x:o?"], invariants=["PtrOk"]))   # ' : spelled %27 by the parser of a special URL, literally by the list serializer
+    # two parameters, one of them with a nested escape in its name: the order of sorting and decoding matters
+    fams.append(Family("idemnest", "ab&=%" if q else "abc&=%2", 2 if q else 3, prefixes=["http://h/?%2562&", "http://h/?%2562=%2563&", "x:o?%2562="], invariants=["PtrOk"]))
+    fams.append(Family("laxhost", [0x110080, 0x1100FF, ord("."), ord("a"), ord("%"), ord("4"), ord("1"), ord("A"), ord(" "), 0xE9, ord("E"), ord("9")], 2 if q else 3,
+                       prefixes=["http://", "x://"], suffixes=["/p?q"], invariants=["PtrOk"]))
+    fams.append(Family("laxpath", [0x110080, ord("/"), ord("%"), ord("2"), ord("5"), ord("e"), 0xE9, ord("E"), ord("9"), ord("."), ord("&"), ord("=")], 2 if q else 3,
+                       prefixes=["http://h/", "http://h/?", "http://h/#"], invariants=["PtrOk"]))
     for f in fams:
         f.bases, f.nobase = [], True
         if q and f.name in ("struct", "path"):
@@ -932,7 +938,7 @@ def check_c17(run):
         mod = f.write(run.scratch)
         profs = ALL_STRING_PROFILES
         if q:   # quick: the two predefined ones, the two richest compositions and three seed-chosen single options
-            profs = ["WhatWg", "WhatWgSortQuery", COMPOSED[6], COMPOSED[7], COMPOSED[8]] + rng(run.seed, "c17profs").sample(COMPOSED[:6], 2)
+            profs = ["WhatWgSortQuery", COMPOSED[6], COMPOSED[7], COMPOSED[8], "GoogleSafeBrowsing", "Semantic"] + rng(run.seed, "c17profs").sample(["WhatWg"] + COMPOSED[:6], 1)
         bad, n = run.tlc_events(mod, f.name, "idem", cfg=mod + ".cfg", chunks=14, events_args=["--names", ",".join(profs)])
         run.samples.append("[%s/idem] %d events (input x profile: y = p(x), z = p(y)) for %d option-composed profiles" % (f.name, n, len(profs)))
         absorb_events(run, bad, f.name)
@@ -952,7 +958,7 @@ def check_c17(run):
             f.write(json.dumps(json.dumps({"t": "u", "in": cps(s_)})) + "\n")
     bad, n = run.tlc_events(None, "pinned", "idem", source_file=pf, chunks=1, events_args=["--names", "GoogleSafeBrowsing,WhatWgSortQuery,canon:repeated_decode"])
     absorb_events(run, bad, "pinned")
-    run.assumptions += ["for GoogleSafeBrowsing and Semantic the specification generates the domain (ordinary-web-URL grammar, spec/Canon.tla) and states the law; it does not predict their output"]
+    run.assumptions += ["for GoogleSafeBrowsing and Semantic the output is predicted for every string, the fixed-point law is demanded only on the ordinary-web-URL grammar (spec/Canon.tla), as the property states"]
     return run.finish("model_checking", "fixed-point law z = p(p(x)) = p(x) evaluated by TLC on outputs observed from the real code: for WhatWg, WhatWgSortQuery and 9 option-composed "
                       "profiles on every string of the parse families (all strings domain); for GoogleSafeBrowsing and Semantic on every spelling (literal / escaped / nested, "
                       "either hex case) of the grammar URLs enumerated by TLC; distinct = events")
